@@ -262,9 +262,10 @@ def resume_stream(ctx, driver, rng, rb):
         cases.append({"stream": "resume1", "prev": hx(prev), "sid": hx(sid), "eph": hx(eph)})
         outs.append(items_str(m1))
         lines.append(f"pv.resume1 {hx(prev)} {hx(sid)} {hx(eph)}")
-        kind = rng.choice(["right", "right", "wrong-secret", "tag-bitflip", "no-method", "method-2", "nonempty-plain", "other-eph", "right+error", "right+state4"])
+        kind = rng.choice(["right", "right", "wrong-secret", "tag-bitflip", "no-method", "method-2", "nonempty-plain", "other-eph", "right+error", "right+state4",
+                           "tag-truncated", "tag-truncated", "tag-extended", "wrong-secret-short-tag"])
         new_sid = rb(8)
-        secret = prev if kind != "wrong-secret" else rb(32)
+        secret = prev if kind not in ("wrong-secret", "wrong-secret-short-tag") else rb(32)
         pk_for = ios_pk if kind != "other-eph" else rb(32)
         respkey = refacc.hk(secret, pk_for + new_sid, b"Pair-Resume-Response-Info")
         tag = ChaCha20Poly1305(respkey).encrypt(b"\0\0\0\0PR-Msg02", b"" if kind != "nonempty-plain" else b"x", b"")
@@ -272,6 +273,12 @@ def resume_stream(ctx, driver, rng, rb):
             t = bytearray(tag)
             t[rng.randrange(16)] ^= 1 << rng.randrange(8)
             tag = bytes(t)
+        if kind == "tag-truncated":
+            tag = tag[:rng.choice([15, 12, 8, 4, 2, 1])]  # a genuine tag cut short authenticates nothing
+        if kind == "wrong-secret-short-tag":
+            tag = tag[:rng.choice([4, 2, 1])]
+        if kind == "tag-extended":
+            tag = tag + rb(rng.choice([1, 4, 16]))
         m2 = [(6, b"\x02"), (0, b"\x06"), (14, new_sid), (5, tag)]
         if kind == "no-method":
             m2 = [x for x in m2 if x[0] != 0]
